@@ -15,7 +15,11 @@ PT_NOTE = ('A4/IC: during a neighbour\'s give_part / space_available_downstream 
 rely('PartFlowController', protect=PT_PROTECT + ['self._waiting_for_part_since'], note=PT_NOTE)
 rely('DecisionGate', protect=PT_PROTECT + ['self._decider_override'], note=PT_NOTE)
 for c_ in ('GroupInput', 'GroupOutput', 'GroupPath'):
-    rely(c_, protect=PT_PROTECT + ['self._group'], note=PT_NOTE)
+    rely(c_, protect=PT_PROTECT + ['self._group', 'self._group._input_device', 'self._group._output_device',
+                                   'self._group._group_paths', 'self._group._group_paths[]'],
+         note=PT_NOTE + '; the group object it belongs to keeps its input / output device and its list of paths')
+SPECS.relies['GroupPath'].protect += ['self._group._input_device._downstream', 'self._group._input_device._downstream[]',
+                                      'self._group._input_device._block_input']    # wiring of the group's entry side
 
 # --------------------------------------------------------------------------- Part: routing history
 invariant('Part', 'routing_lists_exist',
@@ -192,3 +196,120 @@ _sp = SPECS.loops[('PartFlowController.notify_upstream_of_available_space', 1)]
 _sp.invariants = [(n_, t_ if 'self._' not in t_.replace('self._upstream', '') else
                    'implies(typed(self, "PartHandler"), %s)' % t_.replace('self._', 'cast(self, "ref:PartHandler")._'))
                   for n_, t_ in _sp.invariants]
+
+# --------------------------------------------------------------------------- PartFlowController: wiring
+extern('PartFlowController._add_downstream', params=['downstream'],
+       note='C08 wiring: the neighbour registers the caller as its downstream (contract of _add_downstream below)')
+extern('PartFlowController._remove_downstream', params=['downstream'],
+       note='C08 wiring: the neighbour forgets the caller as its downstream (contract of _remove_downstream below)')
+
+contract('PartFlowController._add_downstream', props=['C08', 'C03'], for_cls=PT_ROUTERS, args={'downstream': 'ref:PartFlowController'},
+         requires={'downstream_exists': 'downstream is not None and alive(downstream)'},
+         ensures={'C08/appended_at_the_back_iff_absent':
+                      'ite(old(any(d is downstream for d in self._downstream)), '
+                      '    seq(self._downstream) == old(seq(self._downstream)), '
+                      '    len(self._downstream) == old(len(self._downstream)) + 1 and self._downstream[-1] is downstream and '
+                      '    all(self._downstream[j] is old(self._downstream[j]) for j in range(old(len(self._downstream)))))',
+                  'C03,C08/new_connection_of_a_running_device_announces_space_upstream':
+                      f'ite(old(all(d is not downstream for d in self._downstream) and self._env is not None), {NOTIFIED_ALL}, '
+                      '    trace_len() == old(trace_len()))'},
+         modifies=['self._downstream[]'] + NOTIFY_MOD)
+
+ghost_after('PartFlowController._remove_downstream', '<entry>', g_i='-1')
+ghost_after('PartFlowController._remove_downstream', 'self._downstream.remove(downstream)', g_i='witness("remove_index")')
+contract('PartFlowController._remove_downstream', props=['C08'], for_cls=PT_ROUTERS, args={'downstream': 'ref:PartFlowController'},
+         raises={'ValueError': ('all(d is not downstream for d in self._downstream)', {'unknown_downstream_changes_nothing': '@frame:'})},
+         ensures={'first_occurrence_removed_rest_keeps_order':   # g_i: position of the removed entry
+                      'len(self._downstream) == old(len(self._downstream)) - 1 and 0 <= g_i and g_i <= len(self._downstream) and '
+                      'old(self._downstream[g_i]) is downstream and '
+                      'all(old(self._downstream[j]) is not downstream for j in range(g_i)) and '
+                      'all(self._downstream[j] is old(self._downstream[ite(j < g_i, j, j + 1)]) '
+                      '    for j in range(len(self._downstream)))',
+                  'nobody_is_notified': 'trace_len() == old(trace_len())'},
+         modifies=['self._downstream[]'])
+
+REMOVED = ('all(trace_kind({base} + j) == fn_id("_remove_downstream") and trace_recv({base} + j) is {lst}[j] and '
+           '    trace_ref({base} + j, 0) is self for j in range({n}))')
+ADDED = ('all(trace_kind({base} + j) == fn_id("_add_downstream") and trace_recv({base} + j) is self._upstream[j] and '
+         '    trace_ref({base} + j, 0) is self for j in range({n}))')
+UNCHANGED_ON_ERROR = {'invalid_upstream_list_changes_nothing': '@frame:'}
+contract('PartFlowController.set_upstream', props=['C08'], for_cls=PT_ROUTERS, args={'new_upstream': 'list[ref:PartFlowController]?'},
+         requires={'list_alive': 'new_upstream is None or (alive(new_upstream) and new_upstream is not self._upstream and '
+                                 '  new_upstream is not self._downstream and all(u is None or alive(u) for u in new_upstream))'},
+         raises={'TypeError': (None, UNCHANGED_ON_ERROR), 'AssertionError': (None, UNCHANGED_ON_ERROR),
+                 'RuntimeError': (None, UNCHANGED_ON_ERROR)},
+         ensures={'accepted_only_devices_other_than_itself':
+                      'new_upstream is None or old(all(u is not None and u is not self for u in new_upstream))',
+                  'upstream_is_a_copy_of_the_new_list':
+                      'self._upstream is not new_upstream and self._upstream is not old(self._upstream) and '
+                      'ite(new_upstream is None, len(self._upstream) == 0, seq(self._upstream) == old(seq(new_upstream)))',
+                  'every_old_upstream_forgets_this_device_then_every_new_one_registers_it':
+                      'trace_len() == old(trace_len()) + old(len(self._upstream)) + len(self._upstream) and ' +
+                      REMOVED.format(base='old(trace_len())', lst='old(self._upstream)', n='old(len(self._upstream))')
+                      .replace('old(self._upstream)[j]', 'old(self._upstream[j])') + ' and ' +
+                      ADDED.format(base='old(trace_len()) + old(len(self._upstream))', n='len(self._upstream)')},
+         modifies=['self._upstream', '$trace'])
+loop('PartFlowController.set_upstream', 1, 'for up in new_upstream',
+     {'valid_so_far': 'all(new_upstream[j] is not None and new_upstream[j] is not self for j in range(k))'},
+     modifies=[], index='k')
+loop('PartFlowController.set_upstream', 2, 'for up in self._upstream',
+     {'old_upstreams_told_so_far': 'trace_len() == at_loop_entry(trace_len()) + k and ' +
+                                   REMOVED.format(base='at_loop_entry(trace_len())', lst='self._upstream', n='k')},
+     modifies=['$trace'], index='k')
+loop('PartFlowController.set_upstream', 3, 'for up in self._upstream',
+     {'new_upstreams_told_so_far': 'trace_len() == at_loop_entry(trace_len()) + k and ' +
+                                   ADDED.format(base='at_loop_entry(trace_len())', n='k')},
+     modifies=['$trace'], index='k')
+
+# --------------------------------------------------------------------------- groups
+invariant('GroupPath', 'group_exists',
+          'self._group is not None and alive(self._group) and self._group._input_device is not None and '
+          'alive(self._group._input_device) and self._group._output_device is not None and alive(self._group._output_device) '
+          'and self._group._input_device._downstream is not None and alive(self._group._input_device._downstream) and '
+          'all(d is not None and alive(d) for d in self._group._input_device._downstream)')
+invariant('GroupInput', 'group_exists',
+          'self._group is not None and alive(self._group) and self._group._group_paths is not None and '
+          'alive(self._group._group_paths) and all(p is not None and alive(p) for p in self._group._group_paths)')
+invariant('GroupOutput', 'group_exists', 'self._group is not None and alive(self._group)')
+
+# GroupPath._pass_part_downstream: the exit side of a group path -- first taker wins, candidates are its own downstreams
+loop('GroupPath._pass_part_downstream', 1, 'for dwn in self.get_sorted_downstream_list()',
+     {'candidates_are_the_configured_downstreams': CANDIDATES, 'all_refused_so_far': REFUSED_SO_FAR},
+     modifies=['$trace'], index='g_k')
+ghost_after('GroupPath._pass_part_downstream', '<entry>', g_k='0')
+exit_cl = pass_through_clauses('old(trace_len())', False)
+exit_cl = {n_: t_.replace(OPEN, 'True') for n_, t_ in exit_cl.items() if 'refuses_iff_closed' not in n_}
+contract('GroupPath._pass_part_downstream', props=['C08'], for_cls=['GroupPath'], args={'part': 'ref:Part'}, result='bool',
+         requires={'part_alive': 'part is None or alive(part)'}, ensures=exit_cl, modifies=['$trace'])
+
+# GroupPath.give_part.  The neighbour extern give_part carries no assumption about the part it was offered, so the stack
+# discipline is stated relative to ghost snapshots: g_pushed (this path is on top right after the push), g_n / g_stack
+# (the stack when the group's input side has answered).  With the interface contract G1 of the neighbours (a refused
+# offer leaves the part's stack as it was) "popped exactly the top entry" means "stack as before the call".
+ghost_after('GroupPath.give_part', '<entry>', g_k='0', g_pushed='False', g_n='0', g_stack='seq(part._group_pathing)')
+ghost_after('GroupPath.give_part', 'part._group_pathing.append(self)',
+            g_pushed='len(part._group_pathing) == old(len(part._group_pathing)) + 1 and part._group_pathing[-1] is self and '
+                     'all(part._group_pathing[j] is old(part._group_pathing[j]) for j in range(old(len(part._group_pathing))))')
+ghost_after('GroupPath.give_part', 'did_pass = self._group._input_device.give_part(part)',
+            g_n='len(part._group_pathing)', g_stack='seq(part._group_pathing)')
+GP_OPEN = 'old(not self._block_input)'
+contract('GroupPath.give_part', props=['C08'], for_cls=['GroupPath'], args={'part': 'ref:Part'}, result='bool',
+         requires={'part_exists': 'part is not None and alive(part) and part._group_pathing is not None and '
+                                  'alive(part._group_pathing)'},
+         may_raise=['IndexError', 'AttributeError'],
+         ensures={
+             'C02,C08/blocked_path_refuses_without_touching_the_part':
+                 f'implies(not {GP_OPEN}, not result and trace_len() == old(trace_len()) and '
+                 '        seq(part._group_pathing) == old(seq(part._group_pathing)))',
+             'C08/path_pushed_on_the_stack_and_written_to_the_history_before_the_part_enters_the_group':
+                 f'implies({GP_OPEN}, g_pushed and trace_kind(old(trace_len())) == fn_id("add_routing_history") and '
+                 '        trace_recv(old(trace_len())) is part and trace_ref(old(trace_len()), 0) is self)',
+             'C08/refused_by_the_group_pops_the_stack_and_cleans_the_history':
+                 f'implies({GP_OPEN} and not result, len(part._group_pathing) == g_n - 1 and '
+                 '  all(part._group_pathing[j] == g_stack[j] for j in range(g_n - 1)) and '
+                 '  trace_kind(trace_len() - 1) == fn_id("remove_from_routing_history") and '
+                 '  trace_recv(trace_len() - 1) is part and trace_real(trace_len() - 1, 0) == -1)',
+             'C08/taken_by_the_group_keeps_stack_and_history':
+                 f'implies({GP_OPEN} and result, seq(part._group_pathing) == g_stack and '
+                 '  trace_kind(trace_len() - 1) == fn_id("give_part") and trace_resb(trace_len() - 1))',
+         })
